@@ -119,10 +119,12 @@ type VC struct {
 	inlinedFns   map[string]bool
 	unsupported  map[string]bool
 	boxUsed      map[string]bool
-	quiet        int        // >0: speculative run, do not record obligations
-	exemptC03    int        // >0: executing below a declared error swallow
-	swallowStack [][]string // declared swallows of the frames on the inlining stack
-	globals      []string   // unconditional facts about uninterpreted symbols (never rolled back)
+	quiet        int          // >0: speculative run, do not record obligations
+	exemptC03    int          // >0: executing below a declared error swallow
+	swallowStack [][]string   // declared swallows of the frames on the inlining stack
+	orphans      []*orphanAnn // loop contracts whose loop left its function, waiting for adoption
+	nextCallPos  string       // position of the call being inlined (key of loop-contract adoption)
+	globals      []string     // unconditional facts about uninterpreted symbols (never rolled back)
 	rawDecls     []string
 	declIndex    map[string]int
 	defCache     map[string]defEntry
